@@ -284,6 +284,7 @@ Fixpoint run_xops (fuel : nat) (l : list Z) (s : xst) : list Z * xst :=
     match l with
     | 10 :: r => step (liftM ctl_open) sh_unit r
     | 11 :: a :: n :: r => step (x_read a n) sh_data r
+    | 12 :: a :: r => let '(b, r1) := take_bytes r in step (liftM (ctl_write a b)) sh_unit r1
     | 15 :: r => step genapi sh_data r
     | 16 :: r => step (liftM ctl_close) sh_unit r
     | 17 :: n :: r => step (liftM (set_retry n)) sh_unit r
